@@ -1,10 +1,12 @@
 #!/usr/bin/env python3
 """Sensitivity campaign: deliberate one-line breaks of /repo (DESIGN.md 2.11), each checked with the
 property's quick check. Usage: tools/mutate.py [ids...]   Results: /verif/notes/mutations.jsonl
-The tree is restored after every mutation (git -C /repo checkout -- .)."""
+Works on a scratch git worktree of /repo (MUT_REPO, default /var/tmp/goatmut; created here, removed at
+the end); the checks are pointed at it with VERIF_REPO, so /repo itself is never touched."""
 import subprocess, sys, json, os, time
 
-R='/repo'
+R=os.environ.get('MUT_REPO','/var/tmp/goatmut')  # a scratch git worktree of /repo, never /repo itself
+V=os.environ.get('MUT_VERIF','/var/tmp/goatmutv')
 ENV=dict(os.environ, GOFLAGS='-mod=mod', GOPROXY='off', GOSUMDB='off', GOTOOLCHAIN='local')
 
 def rep(path, old, new, count=1):
@@ -250,10 +252,14 @@ def sh(cmd, timeout=1800, cwd=None):
 
 def main():
     want=set(sys.argv[1:])
-    out=open('/verif/notes/mutations.jsonl','a')
+    out=open(os.environ.get('MUT_OUT','/verif/notes/mutations.jsonl'),'a')
+    if not os.path.exists(R):
+        rc,o=sh(f'git -C /repo worktree add --detach {R} HEAD'); assert rc==0, o
+    # a private copy of the machinery, so cache, evidence and replays of mutated trees never land in /verif
+    rc,o=sh(f'mkdir -p {V}/tools && rsync -a --delete /verif/harness /verif/simrt /verif/check /verif/known_findings.json {V}/ && rsync -a --delete /verif/tools/simrewrite {V}/tools/'); assert rc==0, o
     for id,prop,desc,edits in M:
         if want and id not in want and prop not in want: continue
-        sh('git -C /repo checkout -- .')
+        sh('git -C '+R+' checkout -- .')
         rec={'id':id,'property':prop,'change':desc,'at':time.strftime('%H:%M:%S')}
         try:
             for e in edits: rep(*e)
@@ -262,16 +268,21 @@ def main():
         rc,o=sh('go build ./... ',cwd=R)
         rec['builds']=(rc==0)
         if rc!=0:
-            rec['build_output']=o[-400:]; sh('git -C /repo checkout -- .'); out.write(json.dumps(rec)+'\n'); out.flush(); print(rec); continue
-        rc,o=sh('go test -vet=off -count=1 ./... 2>&1 | grep -v "^ok\\|no test files" | head -5',cwd=R)
-        rec['suite_passes']=(o.strip()=='')
-        if o.strip(): rec['suite_output']=o[-300:]
-        rc,o=sh(f'VERIF_SEED=99 VERIF_BUDGET={os.environ.get("MUT_BUDGET","50s")} ./check {prop}',cwd='/verif')
+            rec['build_output']=o[-400:]; sh('git -C '+R+' checkout -- .'); out.write(json.dumps(rec)+'\n'); out.flush(); print(rec); continue
+        if os.environ.get('MUT_NOSUITE'):
+            rec['suite_passes']=None
+        else:
+            rc,o=sh('go test -vet=off ./... 2>&1 | grep -v "^ok\\|no test files" | head -5',cwd=R)
+            rec['suite_passes']=(o.strip()=='')
+            if o.strip(): rec['suite_output']=o[-300:]
+        rc,o=sh(f'VERIF_REPO={R} VERIF_SEED=99 VERIF_BUDGET={os.environ.get("MUT_BUDGET","50s")} ./check {prop}',cwd=V)
         rec['check_exit']=rc
         v=[l for l in o.splitlines() if l.startswith('violation:')]
         rec['violations']=[x[:160] for x in v[:3]]
-        sh('git -C /repo checkout -- .')
+        sh('git -C '+R+' checkout -- .')
         out.write(json.dumps(rec)+'\n'); out.flush()
         print(id,prop,'suite_passes' if rec['suite_passes'] else 'SUITE-FAILS','DETECTED' if rc==1 else ('MISSED' if rc==0 else f'rc={rc}'),(v[0][:120] if v else ''),flush=True)
-    sh('git -C /repo checkout -- .')
+    sh('git -C '+R+' checkout -- .')
+    if not os.environ.get('MUT_KEEP'):
+        sh(f'git -C /repo worktree remove --force {R}; rm -rf {V}')
 main()
